@@ -254,6 +254,27 @@ theorem struct_agree_aux (hws : w.SupU false)
             simp [hg2, hf1]
           | _ => simp [mapsAtCls] at hm
       | td c => simp [Ty.supU] at hs
+      | union ucs hn =>
+        rw [stF_union, stF_union]
+        cases hp : unionPick w ucs hn o with
+        | ok k =>
+          simp only []
+          by_cases hk : k ∈ ucs
+          · simp only [hk, if_true]
+            refine ihm (.cls k) o ho (by have := sizeOf_cls_lt_union hk hn; omega) (by simp [Ty.supU]) ?_
+            rcases hsc with h | h
+            · exact Or.inl h
+            · right
+              cases o with
+              | none => exact absurd hp unionPick_none_payload
+              | dict kvs =>
+                simp only [mapsAtCls, List.all_eq_true] at h ⊢
+                exact h k hk
+              | _ => simp [mapsAtCls] at h
+          · simp [hk]
+        | none => rfl
+        | refuseCreate => rfl
+        | refuseResolve => rfl
 
 /-- **C06 core (structuring).** -/
 theorem struct_agree (hws : w.SupU false)
